@@ -6,12 +6,14 @@ import (
 	"fmt"
 	"math"
 	"math/big"
+	"math/bits"
 	"time"
 
 	"github.com/jcmturner/gofork/encoding/asn1"
 	"github.com/jcmturner/gokrb5/v8/asn1tools"
 	"github.com/jcmturner/gokrb5/v8/iana"
 	"github.com/jcmturner/gokrb5/v8/iana/asnAppTag"
+	"github.com/jcmturner/gokrb5/v8/iana/etypeID"
 )
 
 // Authenticator - A record containing information that can be shown to have been recently generated using the session
@@ -57,6 +59,13 @@ func (a *Authenticator) GenerateSeqNumberAndSubKey(keyType int32, keySize int) e
 	//Generate subkey value
 	sk := make([]byte, keySize, keySize)
 	rand.Read(sk)
+	if keyType == etypeID.DES3_CBC_SHA1_KD {
+		// Every octet of a DES key carries an odd parity bit (RFC 3961 section 6.3.1).
+		// Other implementations refuse keys without it.
+		for i := range sk {
+			sk[i] = sk[i]&0xfe | byte(1-bits.OnesCount8(sk[i]&0xfe)%2)
+		}
+	}
 	a.SubKey = EncryptionKey{
 		KeyType:  keyType,
 		KeyValue: sk,
